@@ -4,7 +4,7 @@ rewritten children; most-specific: rebuild, then look the rebuilt node up; under
 mentioning a bound variable are dropped), computed by an independent reference on the abstract term,
 and - for symbol maps - with the substitution lemma by exhaustive valuation."""
 from ..common import get_repo, parallel_map
-from ..absint import ClassRef
+from ..absint import ClassRef, AbsRaise
 from .. import proc, refsem
 from ..proc import Shape, S, BOOL, INT
 from .. import simpcheck as sc
@@ -193,6 +193,63 @@ def _interp_job(job):
     istr = "{%s}" % ", ".join("%s(%s) := %s" % (k[0], ", ".join(proc.shape_str(x) for x in v[0]), proc.shape_str(v[1]))
                               for k, v in ip.items())
     return [(entry or cls.split(".")[-1], "%r with %s" % (shape, istr), r.kind, str(r.detail), r.result) for r in res]
+
+
+def _map_reuse_job(job):
+    """The substitution map belongs to the caller: after a call - one that fails inside the body of a quantifier, or one that
+    succeeds - it holds what it held, and a later call with the same map object answers like a call with a fresh copy."""
+    cls, case = job
+    shape = Shape(("lit", True, BOOL))
+
+    def call(w, it, f0):
+        sub = w.new_walker(cls, w.env)
+        w.env.attrs["_substituter"] = sub
+        x, y, z = w.symbol("x", INT), w.symbol("y", INT), w.symbol("z", INT)
+        rr = w.symbol("rr", ("REAL",))
+        three, five = w.int_const(3), w.int_const(5)
+        eq0 = w.app("Equals", w.app("Plus", x, y), w.int_const(0))
+        first = {"forall, ill-typed replacement in the body": (w.app("ForAll", [y], eq0), {y: three, z: five, x: rr}),
+                 "exists under a conjunction, ill-typed replacement": (w.app("And", w.app("LT", z, x), w.app("Exists", [y], eq0)), {y: three, z: five, x: rr}),
+                 "nested binders, ill-typed replacement": (w.app("ForAll", [y], w.app("Exists", [z], w.app("LT", w.app("Plus", x, y), z))), {y: three, z: five, x: rr}),
+                 "forall, well-typed": (w.app("ForAll", [y], eq0), {y: three, z: five, x: w.app("Plus", z, w.int_const(1))}),
+                 "compound key over the bound variable": (w.app("ForAll", [y], eq0), {w.app("Plus", x, y): five, y: three, x: rr})}[case]
+        f, m = first
+        before = dict(m)
+        try:
+            r = it.call(it.getattr(sub, "substitute"), [f, m])
+            out1 = "returns"
+        except AbsRaise as ex:
+            out1 = "raises " + ex.cls_name
+        problems = []
+        if set(m) != set(before) or any(m[k] is not before[k] for k in before if k in m):
+            gone = [sc.node_str(w, k) for k in before if k not in m]
+            problems.append("after the call (%s) the caller's map has lost the entries for %s" % (out1, ", ".join(gone) or "(changed values)"))
+        later = w.app("LT", w.app("Plus", w.app("Times", y, z), w.int_const(1)), w.symbol("lim", INT))
+        m_ok = dict((k, v) for k, v in before.items() if v is not rr)
+        for k in list(m):
+            if m[k] is rr:
+                del m[k]              # the caller repairs the map and uses it again
+        got = it.call(it.getattr(sub, "substitute"), [later, m])
+        want = it.call(it.getattr(w.new_walker(cls, w.env), "substitute"), [later, dict(m_ok)])
+        if got is not want:
+            problems.append("a later substitution with the same map gives %s, with a fresh copy of it %s" % (sc.node_str(w, got), sc.node_str(w, want)))
+        return (out1, problems)
+
+    def post(w, f, val, facts):
+        return proc.ProcResult(shape, "valid", val)
+    res = proc.run_proc(shape, call, post=post, services="full", world_cls=proc.TypedWorld, max_paths=4)
+    if len(res) != 1 or res[0].kind != "valid":
+        return (cls, case, "unsupported", "%s %s" % (res[0].kind, str(res[0].detail)[:200]))
+    out1, problems = res[0].detail
+    return (cls, case, "bad" if problems else "ok", problems[0] if problems else out1)
+
+
+MAP_CASES = ["forall, ill-typed replacement in the body", "exists under a conjunction, ill-typed replacement", "nested binders, ill-typed replacement",
+             "forall, well-typed", "compound key over the bound variable"]
+
+
+def map_reuse_results():
+    return [_map_reuse_job((c, k)) for c in (MG, MS) for k in MAP_CASES]
 
 
 def _interp_cost_job(cls):
